@@ -6,7 +6,15 @@
 // otherwise private items. Never part of the shipped library.
 // ------------------------------------------------------------------------
 
+use crate::ber::{
+    BerDecoder, SnmpBool, SnmpCounter32, SnmpCounter64, SnmpGauge32, SnmpInt, SnmpIpAddress,
+    SnmpNull, SnmpObjectDescriptor, SnmpOctetString, SnmpOid, SnmpOpaque, SnmpOption, SnmpReal,
+    SnmpRelativeOid, SnmpSequence, SnmpTimeTicks, SnmpUInteger32,
+};
+use crate::error::SnmpError;
 pub use crate::privacy::{PrivKey, SnmpPriv};
+use crate::snmp::getbulk::SnmpGetBulk;
+use crate::snmp::getresponse::SnmpGetResponse;
 use crate::snmp::value::SnmpValue;
 
 /// Plain, comparable projection of a decoded value
@@ -61,4 +69,125 @@ pub fn set_salt(k: &mut PrivKey, v: u64) {
         PrivKey::Des(x) => x.verif_set_salt(v as u32),
         PrivKey::Aes128(x) => x.verif_set_salt(v),
     }
+}
+
+/// Build a GetBulk PDU body (fields are crate-private)
+pub fn getbulk<'a>(
+    request_id: i64,
+    non_repeaters: i64,
+    max_repetitions: i64,
+    vars: Vec<SnmpOid<'a>>,
+) -> SnmpGetBulk<'a> {
+    SnmpGetBulk {
+        request_id,
+        non_repeaters,
+        max_repetitions,
+        vars,
+    }
+}
+
+/// (request_id, non_repeaters, max_repetitions, raw oids)
+pub fn getbulk_parts(p: &SnmpGetBulk) -> (i64, i64, i64, Vec<Vec<u8>>) {
+    (
+        p.request_id,
+        p.non_repeaters,
+        p.max_repetitions,
+        p.vars.iter().map(|x| x.0.to_vec()).collect(),
+    )
+}
+
+/// (request_id, error_status, error_index, [(raw oid, value)])
+pub fn response_parts(p: SnmpGetResponse) -> (i64, i64, i64, Vec<(Vec<u8>, VerifValue)>) {
+    (
+        p.request_id,
+        p.error_status,
+        p.error_index,
+        p.vars
+            .into_iter()
+            .map(|v| (v.oid.0.to_vec(), project(v.value)))
+            .collect(),
+    )
+}
+
+/// Run a typed decoder's `from_ber`; returns (octets left, rendering of the value)
+pub fn typed_from_ber(name: &str, i: &[u8]) -> Result<(usize, String), SnmpError> {
+    fn r<T>(x: nom::IResult<&[u8], T, SnmpError>) -> Result<(usize, T), SnmpError> {
+        let (t, v) = x?;
+        Ok((t.len(), v))
+    }
+    Ok(match name {
+        "bool" => {
+            let (n, v) = r(SnmpBool::from_ber(i))?;
+            (n, format!("{}", bool::from(v)))
+        }
+        "int" => {
+            let (n, v) = r(SnmpInt::from_ber(i))?;
+            (n, format!("{}", i64::from(v)))
+        }
+        "null" => {
+            let (n, _) = r(SnmpNull::from_ber(i))?;
+            (n, "null".into())
+        }
+        "octetstring" => {
+            let (n, v) = r(SnmpOctetString::from_ber(i))?;
+            (n, format!("{:02x?}", v.0))
+        }
+        "oid" => {
+            let (n, v) = r(SnmpOid::from_ber(i))?;
+            (n, format!("{:02x?}", v.0))
+        }
+        "objectdescriptor" => {
+            let (n, v) = r(SnmpObjectDescriptor::from_ber(i))?;
+            (n, format!("{:02x?}", v.0))
+        }
+        "real" => {
+            let (n, v) = r(SnmpReal::from_ber(i))?;
+            (n, format!("{:016x}", f64::from(v).to_bits()))
+        }
+        "ipaddress" => {
+            let (n, v) = r(SnmpIpAddress::from_ber(i))?;
+            (n, String::from(&v))
+        }
+        "counter32" => {
+            let (n, v) = r(SnmpCounter32::from_ber(i))?;
+            (n, format!("{}", v.0))
+        }
+        "gauge32" => {
+            let (n, v) = r(SnmpGauge32::from_ber(i))?;
+            (n, format!("{}", v.0))
+        }
+        "timeticks" => {
+            let (n, v) = r(SnmpTimeTicks::from_ber(i))?;
+            (n, format!("{}", v.0))
+        }
+        "uinteger32" => {
+            let (n, v) = r(SnmpUInteger32::from_ber(i))?;
+            (n, format!("{}", v.0))
+        }
+        "counter64" => {
+            let (n, v) = r(SnmpCounter64::from_ber(i))?;
+            (n, format!("{}", v.0))
+        }
+        "opaque" => {
+            let (n, v) = r(SnmpOpaque::from_ber(i))?;
+            (n, format!("{:02x?}", v.0))
+        }
+        "relativeoid" => {
+            let (n, v) = r(SnmpRelativeOid::from_ber(i))?;
+            (n, format!("{:02x?}", v))
+        }
+        "sequence" => {
+            let (n, v) = r(SnmpSequence::from_ber(i))?;
+            (n, format!("{:02x?}", v.0))
+        }
+        "option" => {
+            let (n, v) = r(SnmpOption::from_ber(i))?;
+            (n, format!("{} {:02x?}", v.tag, v.value))
+        }
+        "value" => {
+            let (n, v) = r(SnmpValue::from_ber(i))?;
+            (n, format!("{:02x?}", project(v)))
+        }
+        _ => return Err(SnmpError::NotImplemented),
+    })
 }
